@@ -35,9 +35,10 @@ class State:
 
 
 class Spec:
-    def __init__(self, add_pool, rename_pool):
+    def __init__(self, add_pool, rename_pool, kinds=("sheet", "table")):
         self.add_pool = add_pool
         self.rename_pool = rename_pool
+        self.kinds = kinds
 
     def initial(self, init_id):
         st = State()
@@ -53,18 +54,20 @@ class Spec:
     def enabled(self, st, depth_left):
         evs = []
         ref = st.ref
-        if len(ref) < MAX_ITEMS:
+        if "sheet" in self.kinds and len(ref) < MAX_ITEMS:
             for nm in self.add_pool:
                 evs.append(["add_sheet", nm])
         for si in sorted({0, len(ref) - 1}):
-            if len(ref[si][1]) < MAX_ITEMS:
+            if "table" in self.kinds and len(ref[si][1]) < MAX_ITEMS:
                 for nm in self.add_pool:
                     evs.append(["add_table", si, nm])
-            for nm in self.rename_pool:
-                evs.append(["rename_sheet", si, nm])
-            for ti in sorted({0, len(ref[si][1]) - 1}):
+            if "sheet" in self.kinds:
                 for nm in self.rename_pool:
-                    evs.append(["rename_table", si, ti, nm])
+                    evs.append(["rename_sheet", si, nm])
+            if "table" in self.kinds:
+                for ti in sorted({0, len(ref[si][1]) - 1}):
+                    for nm in self.rename_pool:
+                        evs.append(["rename_table", si, ti, nm])
         return evs
 
     def apply(self, st, ev):
@@ -197,13 +200,18 @@ SPECS = {
     "wide": Spec(POOL_QUICK, ["Table 2", "SHEET 2"]),
     "full": Spec(POOL_FULL, ["Table 2", "table 2", "Sheet 2", "X", "", "É"]),
     "min": Spec(POOL_MIN, ["Table 2", "SHEET 2"]),
+    # complete depth-3/4 alphabets over names closed under case variants, one collection kind at a time:
+    # every (query, rename, add) order is a history - e.g. refused add, rename of a sibling, add of its case variant
+    "tables3": Spec([None, "table 1", "Table 2", "table 2"], ["Table 2", "table 1"], kinds=("table",)),
+    "sheets3": Spec([None, "sheet 1", "Sheet 2", "sheet 2"], ["Sheet 2", "sheet 1"], kinds=("sheet",)),
 }
 
 
 def plan(tier):
     if tier == "quick":
-        return [("wide", ["fresh:", "fixture:issue-77.numbers"], 2, True), ("min", ["fresh:"], 3, True), ("min", ["fixture:test-1.numbers"], 2, True)]
-    return [("full", ["fresh:", "fixture:issue-77.numbers", "fixture:test-1.numbers"], 2, True), ("wide", ["fresh:", "fixture:issue-77.numbers"], 3, True), ("min", ["fresh:"], 4, True)]
+        return [("wide", ["fresh:", "fixture:issue-77.numbers"], 2, True), ("tables3", ["fresh:"], 3, True), ("sheets3", ["fresh:"], 3, True), ("min", ["fixture:test-1.numbers"], 2, True)]
+    return [("full", ["fresh:", "fixture:issue-77.numbers", "fixture:test-1.numbers"], 2, True), ("wide", ["fresh:", "fixture:issue-77.numbers"], 3, True),
+            ("tables3", ["fresh:", "fixture:issue-77.numbers"], 4, True), ("sheets3", ["fresh:"], 4, True), ("min", ["fresh:"], 4, True)]
 
 
 def main():
